@@ -46,7 +46,8 @@ var propConfigs = map[string]propConfig{
 	"C08": {Gen: true},
 	"C11": {Gen: true},
 	"C18": {Gen: true},
-	"C16": {},
+	"C16": {Bounded: []boundedCheck{{Name: "independent-walk", Run: "TestReplayC16", Module: true,
+		Bound: "files of the Rec shape: 17 records, page sizes 1,2,3,5,100, partitions {17},{9,8},{4,6,7}, three codecs: PageHeaders(footer) compared (order and content) with an independent walk of every chunk page by page in file order, PageHeadersAtOffset compared per chunk; stands in for the one introspection function without a deductive contract (PageHeaders concatenates the per-chunk lists in row-group/column order)"}}},
 	"C02": {Gen: true, Bounded: []boundedCheck{{Name: "independent-parse", Run: "TestBoundedC02", Module: true,
 		Bound: "struct shapes (six small chain shapes under replay/shapes with the expected columns derived from the Go type; Rec: required/optional/repeated columns of every physical type and one repeated group; Deep: groups nested three levels, the same group name under two parents, a repeated group inside a repeated group, fully required nesting), 11 Add/Write histories (Rec) and 6 batch partitions (Deep), page sizes 1,2,3,4,5,8,1000, three codecs: every file parsed by an independent checker (schema tree walked by num_children against the expected leaves with path, type, converted type and repetition; chunks one to one with the leaves in order; offsets contiguous from byte 4 to the footer; every page decompressed, level sections decoded with an own RLE/bit-packing decoder, value sections measured by type; header sizes, value counts, chunk totals, row counts, records per page <= page size, pages starting at record boundaries; footer length word and both magics)"}}},
 	"C03": {Gen: true, Bounded: []boundedCheck{{Name: "independent-striping", Run: "TestBoundedC03", Module: true,
@@ -511,6 +512,9 @@ func writeEvidence(path string, o checkOpts, results []*FuncResult, res *CheckRe
 		}
 		if ob.Res.Secs > slowest {
 			slowest = ob.Res.Secs
+		}
+		if os.Getenv("GOVC_SLOW") != "" && ob.Res.Secs > 1.5 {
+			fmt.Printf("slow %.1fs %s %s [%s] %dB\n", ob.Res.Secs, shortKey(ob.Func), ob.Name, ob.Res.Solver, ob.Bytes)
 		}
 	}
 	step := 1
